@@ -529,6 +529,16 @@ func c07EngineSelection(c *core.Ctx) {
 		}
 		lines = append(lines, s.Render(c.Rng))
 	}
+	if c.Rng.Intn(6) == 0 {
+		// A blocking rule and an exception whose whole texts have the same
+		// 32-bit hash (both without an index key: they meet in the sequential
+		// table), next to the other candidates.
+		if pairs := gen.CrossCollisions("x.c$ctag=~", "@@x.c$ctag=~", 400000); len(pairs) > 0 {
+			p := pairs[c.Rng.Intn(len(pairs))]
+			lines = append(lines, p[0], p[1])
+			c.Event("engine_selection_lists_with_hash_colliding_rule_texts", 1)
+		}
+	}
 	req := rules.NewRequest("https://x.com/", "https://d.com/", rules.TypeScript)
 	req.DNSType = 1
 	req.ClientIP = gen.ClientNets[0].Prefix.Addr()
@@ -545,7 +555,14 @@ func c07EngineSelection(c *core.Ctx) {
 	}
 	ne := urlfilter.NewNetworkEngine(util.Storage(contents...))
 	eng := urlfilter.NewEngine(util.Storage(contents...))
-	all := ne.MatchAll(req)
+	// The candidates, established without any engine: every line parsed on its
+	// own and asked whether it matches.
+	var all []*rules.NetworkRule
+	for _, l := range lines {
+		if r, perr := rules.NewNetworkRule(l, 0); perr == nil && r.Match(req) {
+			all = append(all, r)
+		}
+	}
 	c.Eval(1)
 	if len(all) < 2 {
 		c.Event("engine_selection_fewer_than_two_candidates", 1)
